@@ -228,10 +228,10 @@ pub fn run(env: &Env, rep: &Report) {
     rep.set_rule("boxes with positive size over 1e-2..1e4 and any angle; equality pairs differing in exactly one coordinate by +-delta across the EPS boundary, both argument orders, both box types; angles to |a|<=1e3 and around multiples of pi/2. Non-trivial: rotated polygon; equality pair outside the 0.9..1.1 EPS band with non-zero difference; angle outside [0,2pi); distinct = distinct serialized case");
     rep.assume("equality threshold is three-valued: |difference| in [0.9 EPS, 1.1 EPS] accepts either answer");
     let w = workers();
-    par_generated(rep, "ltwh", ltwh_case, env.tier.pick(200_000, 5_000_000), w, check_ltwh);
-    par_generated(rep, "polygon", poly_case, env.tier.pick(200_000, 5_000_000), w, check_poly);
-    par_generated(rep, "equality", eq_case, env.tier.pick(400_000, 10_000_000), w, check_eq);
-    par_generated(rep, "normalize", angle_case, env.tier.pick(200_000, 5_000_000), w, check_angle);
+    par_generated(rep, "ltwh", ltwh_case, env.tier.pick(1_000_000, 20_000_000), w, check_ltwh);
+    par_generated(rep, "polygon", poly_case, env.tier.pick(1_000_000, 20_000_000), w, check_poly);
+    par_generated(rep, "equality", eq_case, env.tier.pick(2_000_000, 40_000_000), w, check_eq);
+    par_generated(rep, "normalize", angle_case, env.tier.pick(1_000_000, 20_000_000), w, check_angle);
 }
 
 pub fn replay(sub: &str, case: Value) -> Option<CaseResult> {
